@@ -5,12 +5,14 @@
 -/
 import MoThreads.Driver.M1
 import MoThreads.Driver.M3
+import MoThreads.Driver.M4
 open MoThreads.Driver
 
 inductive Model
   | none
   | m1 (m : M1.Sim)
   | m3 (m : M3.Sim)
+  | m4 (m : M4.Sim)
 
 structure DState where
   runId : String := ""
@@ -32,6 +34,7 @@ def finish (d : DState) : IO Unit := do
     match d.model with
     | .m1 m => IO.println s!"ok {d.runId} steps={m.steps}"
     | .m3 m => IO.println s!"ok {d.runId} steps={m.steps}"
+    | .m4 m => IO.println s!"ok {d.runId} steps={m.steps}"
     | .none => IO.println s!"ok {d.runId} steps=0"
 
 def startRun (ws : List String) : Except String Model :=
@@ -41,6 +44,10 @@ def startRun (ws : List String) : Except String Model :=
     let rs := (kv rest "raises").splitOn "," |>.filterMap String.toNat?
     .ok (.m1 (M1.start never rs))
   | _ :: _ :: "m3" :: _ => .ok (.m3 M3.start)
+  | _ :: _ :: "m4" :: rest =>
+    let mx := (kv rest "max").toNat?.getD 1024
+    let pre := (kv rest "prefill").splitOn "," |>.filterMap String.toNat?
+    .ok (.m4 (M4.start mx (kv rest "allow" == "1") pre))
   | _ => .error "unknown model"
 
 partial def loop (h : IO.FS.Stream) (d : DState) : IO Unit := do
@@ -71,6 +78,12 @@ partial def loop (h : IO.FS.Stream) (d : DState) : IO Unit := do
       | .m3 m =>
         match M3.feed m ws with
         | .ok m' => loop h { d with model := .m3 m' }
+        | .error e =>
+          IO.println s!"FAIL {d.runId} line={d.lineNo} {e}"
+          loop h { d with failed := true }
+      | .m4 m =>
+        match M4.feed m ws with
+        | .ok m' => loop h { d with model := .m4 m' }
         | .error e =>
           IO.println s!"FAIL {d.runId} line={d.lineNo} {e}"
           loop h { d with failed := true }
